@@ -222,7 +222,7 @@ Qed.
 Lemma step_inv sc w tr e w' : WI w tr -> step sc w e w' -> StepOK w e /\ WI w' (tr ++ [e]).
 Proof.
   intros HW Hs.
-  destruct Hs as [stage m1 w Hfresh|w|w t ev f Hf].
+  destruct Hs as [stage m1 w Hfresh Hactive|w|w t ev f Hf].
   - (* start-up *)
     unfold start_rec. cbn [fst snd].
     assert (Hf : forall s, CInv false 0 m1 (inc (w_mod w m1)) s -> x_log s = [] ->
